@@ -6,6 +6,7 @@ import sys
 import time
 
 from . import core
+from . import shapedeps
 
 
 class Prop:
@@ -122,7 +123,8 @@ def run(prop, tier, seed, replay=None):
 
     # 1. translator
     ok, failed, out = core.regenerate()
-    gen_broken = [g for g in failed if g in prop.gen_deps]
+    shape = shapedeps.shape_deps(pid)
+    gen_broken = [g for g in failed if g in prop.gen_deps or g in shape]
     if gen_broken:
         broken.append({"kind": "translator", "what": "source shape no longer recognised for Generated/%s.v" % ",".join(gen_broken),
                        "log": out[-1500:]})
@@ -354,6 +356,9 @@ def run(prop, tier, seed, replay=None):
         ] + (["function translator tools/rs2v + tools/gen_fn_*.py (Generated/%s.v re-translated from the Rust functions on every run; Proofs/*Gen.v prove "
               "translation = hand model; usize + and * modelled unbounded, every other integer operation width-checked; unsafe / fmt plumbing functions "
               "hand-modelled and pinned by token hash)" % ",".join(g for g in prop.gen_deps if g.endswith("Fn"))] if any(g.endswith("Fn") for g in prop.gen_deps) else [])
+        + ["item-skeleton pins tools/gen_shape.py (derives, trait impls and the methods each defines, signatures, fields, statics, macro_rules, "
+           "cfg attributes of %s must equal the recorded skeleton tools/shape/*.txt the models were written against; any difference is a broken tie)"
+           % ", ".join(shapedeps.shape_files(pid))]
         + list(prop.trusted),
         "theorems": pinfo["theorems"],
         "evaluations": evaluations,
